@@ -172,6 +172,11 @@ type Gen struct {
 	lateTypeP          float64
 	exploited          bool // the first violation of another property has been followed up
 	lastCtx            map[uint64]int
+	// swarm: per-run multipliers of the profile's workload, fault and E2 model
+	// weights (drawn once per run), so that within one profile some runs are
+	// dominated by membership changes, some by compaction and snapshots, some
+	// by elections, ...
+	mulClient, mulFault, mulVirtual []float64
 }
 
 func pick(rng *rand.Rand, ws []float64) int {
@@ -371,6 +376,17 @@ func NewGen(runSeed uint64, p Profile, opt Options) *Gen {
 	}
 	g.nextTag = 1
 	g.nextCtx = 1
+	swarm := func(n int) []float64 {
+		m := make([]float64, n)
+		for i := range m {
+			m[i] = 1
+			if chance(rng, 0.35) {
+				m[i] = []float64{0.2, 0.5, 2, 4}[rng.IntN(4)]
+			}
+		}
+		return m
+	}
+	g.mulClient, g.mulFault, g.mulVirtual = swarm(11), swarm(7), swarm(10)
 	g.after()
 	return g
 }
@@ -786,6 +802,9 @@ func (g *Gen) clientOp() {
 	}
 	p := g.p
 	ws := []float64{p.WPropose, p.WBatch, p.WConf, p.WRead, p.WTransfer, p.WCampaign, p.WForget, p.WUnreach, p.WCompact, p.WCheckpoint, p.WSnapFault}
+	for i := range ws {
+		ws[i] *= g.mulClient[i]
+	}
 	if g.proposals >= p.MaxProposals {
 		ws[0], ws[1] = 0, 0
 	}
@@ -1067,6 +1086,7 @@ func (g *Gen) fault() {
 	ws := []float64{p.WCrash, p.WPartition, p.WHealF, p.WClockStall, p.WClockJump, p.WSlowNode, p.WStallThread}
 	kinds := []string{"crash", "partition", "partition", "clock", "clock", "slow", "slow"}
 	for i := range ws {
+		ws[i] *= g.mulFault[i]
 		if !g.allow(kinds[i]) {
 			ws[i] = 0
 		}
@@ -1093,7 +1113,26 @@ func (g *Gen) fault() {
 		ids := append([]uint64(nil), c.ids...)
 		g.rng.Shuffle(len(ids), func(i, j int) { ids[i], ids[j] = ids[j], ids[i] })
 		var part [][]uint64
-		switch g.rng.IntN(3) {
+		forceOneWay := false
+		shape := g.rng.IntN(4)
+		if shape == 3 && len(ids) < 2 {
+			shape = 1
+		}
+		switch shape {
+		case 3: // one node is mute (receives, cannot send) or deaf (sends, receives nothing)
+			x := ids[0]
+			var rest []uint64
+			for _, y := range c.ids {
+				if y != x {
+					rest = append(rest, y)
+				}
+			}
+			if chance(g.rng, 0.6) {
+				part = [][]uint64{{x}, rest}
+			} else {
+				part = [][]uint64{rest, {x}}
+			}
+			forceOneWay = true
 		case 0: // isolate the leader (or a random node)
 			l := g.leaderID()
 			if l == 0 {
@@ -1125,7 +1164,7 @@ func (g *Gen) fault() {
 				sort.Slice(grp, func(i, j int) bool { return grp[i] < grp[j] })
 			}
 		}
-		oneWay := chance(g.rng, 0.2)
+		oneWay := chance(g.rng, 0.2) || forceOneWay
 		if g.do(Action{K: APartition, Part: part, B: oneWay}) && chance(g.rng, 0.5) {
 			// messages already in flight across the cut are lost too
 			for _, from := range c.ids {
@@ -1219,7 +1258,11 @@ func (g *Gen) virtualOp() {
 		return
 	}
 	real := c.nodes[vg.real]
-	switch pick(g.rng, []float64{1.2, 6, 5, 4, 10, 2, 1.2, 1.5, 1.5}) {
+	vw := []float64{1.2, 6, 5, 4, 10, 2, 1.2, 1.5, 1.5, 0.7}
+	for i := range vw {
+		vw[i] *= g.mulVirtual[i]
+	}
+	switch pick(g.rng, vw) {
 	case 0:
 		g.do(Action{K: AVElect, N: ids[g.rng.IntN(len(ids))]})
 	case 1:
@@ -1254,6 +1297,12 @@ func (g *Gen) virtualOp() {
 		g.do(Action{K: AVCompact, N: ids[g.rng.IntN(len(ids))], I: g.rng.IntN(4)})
 	case 7:
 		g.do(Action{K: AVSendSnap, N: anyLeader()})
+	case 9:
+		if g.confChanges < g.p.MaxConfChanges+4 {
+			g.confChanges++
+			g.nextCtx++
+			g.do(Action{K: AVProposeConf, N: anyLeader(), I: g.nextCtx, J: g.rng.IntN(4)})
+		}
 	case 8:
 		// the real node's own application maintenance
 		if real.up {
